@@ -37,7 +37,8 @@ func NewPool(path string, n int, flags []int) (*Pool, error) {
 }
 
 func (p *Pool) spawn() (*proc, error) {
-	cmd := exec.Command(p.path)
+	// the extracted code recurses on the input; give it an unlimited system stack
+	cmd := exec.Command("/bin/sh", "-c", "ulimit -s unlimited 2>/dev/null || ulimit -s 1000000 2>/dev/null; exec \"$0\"", p.path)
 	in, err := cmd.StdinPipe()
 	if err != nil {
 		return nil, err
